@@ -215,7 +215,7 @@ class _Ret(ast.NodeTransformer):
         self.n += 1
         out = []
         if self.target is not None:
-            out.append(ast.copy_location(ast.Assign(targets=[ast.Name(id=self.target, ctx=ast.Store())],
+            out.append(ast.copy_location(ast.Assign(targets=[_tgt(self.target)],
                                                     value=n.value if n.value is not None else ast.Constant(None)), n))
         elif n.value is not None and not isinstance(n.value, (ast.Constant, ast.Name)):
             out.append(ast.copy_location(ast.Expr(value=n.value), n))
@@ -269,7 +269,8 @@ def _expand(P, helper, call, target, counter, at):
         stmts = pre + (body[:-1] if last is not None else body)
         val = last.value if last is not None and last.value is not None else ast.Constant(None)
         if target is not None:
-            stmts.append(ast.copy_location(ast.Assign(targets=[ast.Name(id=target, ctx=ast.Store())], value=val), at))
+            stmts.append(ast.copy_location(ast.Assign(targets=[_tgt(target)], value=val), at))
+            stmts = _merge_results(stmts, pre, target, val, sfx)
         elif last is not None and last.value is not None and not isinstance(last.value, (ast.Constant, ast.Name)):
             stmts.append(ast.copy_location(ast.Expr(value=last.value), at))
         out = stmts
@@ -280,12 +281,65 @@ def _expand(P, helper, call, target, counter, at):
             r = tr.visit(s)
             nb += r if isinstance(r, list) else [r]
         if target is not None and _falls_through(nb):
-            nb.append(ast.copy_location(ast.Assign(targets=[ast.Name(id=target, ctx=ast.Store())], value=ast.Constant(None)), at))
+            nb.append(ast.copy_location(ast.Assign(targets=[_tgt(target)], value=ast.Constant(None)), at))
         if nb and isinstance(nb[-1], InlineExit):
             nb.pop()        # falling off the end of the block is the same exit
         out = pre + [ast.copy_location(InlineBlock(body=nb), at)]
     for s in out:
         ast.fix_missing_locations(s)
+    return out
+
+
+def _tgt(t):
+    return ast.Name(id=t, ctx=ast.Store()) if isinstance(t, str) else copy.deepcopy(t)
+
+
+def _merge_results(stmts, pre, target, val, sfx):
+    """flat expansion `p__h = p (copy-in) ... body ... a, b = (x__h, p__h)`: the helper's locals that only carry a value back to a
+    caller variable take that variable's name (and a parameter copied in from the same variable needs no copy at all)"""
+    lhs = [ast.Name(id=target, ctx=ast.Store())] if isinstance(target, str) else (list(target.elts) if isinstance(target, ast.Tuple) else [target])
+    rhs = [val] if len(lhs) == 1 else (list(val.elts) if isinstance(val, ast.Tuple) and len(val.elts) == len(lhs) else None)
+    if rhs is None:
+        return stmts
+    body = stmts[:-1]
+    m = {}
+    copyin = {}
+    for p_ in pre:
+        if isinstance(p_.value, ast.Name):
+            copyin[p_.targets[0].id] = p_.value.id
+    used_in_body = {x.id for s_ in body for x in ast.walk(s_) if isinstance(x, ast.Name)}
+    for l, r in zip(lhs, rhs):
+        if not (isinstance(l, ast.Name) and isinstance(r, ast.Name) and r.id.endswith(sfx)):
+            continue
+        src = copyin.get(r.id)
+        if src is not None and src != l.id:
+            continue                                   # copied in from one variable, handed back to another
+        others = used_in_body - {r.id}
+        if l.id in others and not (src == l.id and sum(1 for s_ in body for x in ast.walk(s_) if isinstance(x, ast.Name) and x.id == l.id) == 1):
+            continue                                   # the caller variable is read elsewhere in the expansion
+        if l.id in m.values():
+            continue
+        m[r.id] = l.id
+    if not m:
+        return stmts
+    out = []
+    for s_ in body:
+        if isinstance(s_, ast.Assign) and len(s_.targets) == 1 and isinstance(s_.targets[0], ast.Name) and s_.targets[0].id in m \
+                and isinstance(s_.value, ast.Name) and s_.value.id == m[s_.targets[0].id] and s_ in pre:
+            continue                                   # copy-in of the same variable
+        out.append(_Rename(m).visit(s_))
+    keep_l, keep_r = [], []
+    for l, r in zip(lhs, rhs):
+        if isinstance(r, ast.Name) and r.id in m and isinstance(l, ast.Name) and m[r.id] == l.id:
+            continue
+        keep_l.append(l)
+        keep_r.append(_Rename(m).visit(r))
+    if keep_l:
+        last = stmts[-1]
+        if len(keep_l) == 1:
+            out.append(ast.copy_location(ast.Assign(targets=[keep_l[0]], value=keep_r[0]), last))
+        else:
+            out.append(ast.copy_location(ast.Assign(targets=[ast.Tuple(elts=keep_l, ctx=ast.Store())], value=ast.Tuple(elts=keep_r, ctx=ast.Load())), last))
     return out
 
 
@@ -420,9 +474,10 @@ def _process_block(P, f, stmts, new, state):
                 break
             (fld, parent, pfield, idx, node, is_await, c, t) = hit
             state['n'] += 1
-            direct_assign = isinstance(s, ast.Assign) and parent is None and len(s.targets) == 1 and isinstance(s.targets[0], ast.Name)
+            direct_assign = isinstance(s, ast.Assign) and parent is None and len(s.targets) == 1 and (isinstance(s.targets[0], ast.Name) or (
+                isinstance(s.targets[0], ast.Tuple) and all(isinstance(e_, ast.Name) for e_ in s.targets[0].elts)))
             direct_expr = isinstance(s, ast.Expr) and parent is None
-            tgt = s.targets[0].id if direct_assign else (None if direct_expr else f'ret__h{state["n"]}')
+            tgt = (s.targets[0].id if isinstance(s.targets[0], ast.Name) else s.targets[0]) if direct_assign else (None if direct_expr else f'ret__h{state["n"]}')
             exp = _expand(P, P.funcs[t], c, tgt, state['n'], s)
             if exp is None:
                 break
@@ -515,9 +570,77 @@ def inline_new_constants(P):
     return n
 
 
+def _dataclass_fields(P, m, c):
+    cls = P.classes.get((m, c))
+    if cls is None or not any('dataclass' in ast.unparse(d) for d in cls.decorator_list):
+        return None
+    if P.find_member(m, c, '__init__') or P.find_member(m, c, '__post_init__'):
+        return None
+    names = []
+    for (mm, cc) in reversed(P.mro(m, c)):
+        for s in P.classes[(mm, cc)].body:
+            if isinstance(s, ast.AnnAssign) and isinstance(s.target, ast.Name) and 'ClassVar' not in ast.unparse(s.annotation):
+                if s.target.id not in names:
+                    names.append(s.target.id)
+    return names
+
+
+def spell_out_dataclass_construction(P):
+    """`x = DC(a=1, b=2)` on a plain local, DC a dataclass without custom __init__ / __post_init__, is `x = DC(); x.a = 1; x.b = 2`
+    (and `recv.extend(X)` as a statement is the loop of appends): one spelling for filling in a record"""
+    n = 0
+    for q, f in P.funcs.items():
+        if isinstance(f.node, ast.Lambda):
+            continue
+
+        def block(stmts):
+            nonlocal n
+            out = []
+            for s in stmts:
+                for fld in ('body', 'orelse', 'finalbody'):
+                    b = getattr(s, fld, None)
+                    if isinstance(b, list) and b and isinstance(b[0], ast.stmt) and not isinstance(s, FuncT + (ast.ClassDef,)):
+                        setattr(s, fld, block(b))
+                if isinstance(s, ast.Try):
+                    for h in s.handlers:
+                        h.body = block(h.body)
+                if isinstance(s, ast.Assign) and len(s.targets) == 1 and isinstance(s.targets[0], ast.Name) and isinstance(s.value, ast.Call) \
+                        and (s.value.args or s.value.keywords) and not any(isinstance(a, ast.Starred) for a in s.value.args) \
+                        and not any(k.arg is None for k in s.value.keywords):
+                    t = _resolve(P, f, s.value)
+                    flds = _dataclass_fields(P, t[1], t[2]) if isinstance(t, tuple) else None
+                    if flds and len(s.value.args) <= len(flds) and all(k.arg in flds for k in s.value.keywords):
+                        x = s.targets[0].id
+                        binds = list(zip(flds, s.value.args)) + [(k.arg, k.value) for k in s.value.keywords]
+                        if not any(isinstance(y, ast.Name) and y.id == x for (_, v) in binds for y in ast.walk(v)):
+                            out.append(ast.copy_location(ast.Assign(targets=[s.targets[0]], value=ast.copy_location(
+                                ast.Call(func=s.value.func, args=[], keywords=[]), s.value)), s))
+                            for (nm, v) in binds:
+                                st = ast.copy_location(ast.Assign(targets=[ast.Attribute(value=ast.Name(id=x, ctx=ast.Load()), attr=nm, ctx=ast.Store())], value=v), v)
+                                ast.fix_missing_locations(st)
+                                out.append(st)
+                            n += 1
+                            continue
+                if isinstance(s, ast.Expr) and isinstance(s.value, ast.Call) and isinstance(s.value.func, ast.Attribute) and s.value.func.attr == 'extend' \
+                        and len(s.value.args) == 1 and not s.value.keywords and not isinstance(s.value.args[0], (ast.List, ast.Tuple)):
+                    c = s.value
+                    loop = ast.copy_location(ast.For(target=ast.Name(id=f'elt__{c.lineno}', ctx=ast.Store()), iter=c.args[0], body=[ast.Expr(value=ast.Call(
+                        func=ast.Attribute(value=c.func.value, attr='append', ctx=ast.Load()), args=[ast.Name(id=f'elt__{c.lineno}', ctx=ast.Load())], keywords=[]))],
+                        orelse=[], type_comment=None), s)
+                    ast.fix_missing_locations(loop)
+                    out.append(loop)
+                    n += 1
+                    continue
+                out.append(s)
+            return out
+        f.node.body = block(f.node.body)
+    return n
+
+
 def normalise_calls(P):
     base = baseline()
     stats = {'keywords_reordered': 0, 'expanded': [], 'functions_with_new_constants': inline_new_constants(P)}
+    stats['records_spelled_out'] = spell_out_dataclass_construction(P)
     for q, f in list(P.funcs.items()):
         if isinstance(f.node, ast.Lambda):
             continue
